@@ -102,3 +102,14 @@ Proof.
   exact (conj A (conj B (conj C D))).
 Qed.
 Print Assumptions C02_positions_final_lines.
+
+(* trees WITH CachedSource nodes, first observation of a freshly built tree (caches cold) *)
+From RS Require Proofs.ColdCache Proofs.ColdCacheTree.
+Theorem C02_positions_cold_caches : forall s, ColdCache.ids_distinct s ->
+  RStreamTree.rshape (ColdCache.uncache s) = true -> treeA s = true -> rsmall (ColdCache.uncache s) = true ->
+  forall cols,
+  let '(evs, gi, _) := stream [] s (mkOpts cols false) in
+  reassembles evs (source s) = true /\ well_positioned (chunks_of evs) 1 0 = true /\
+  gi = advance 1 0 (source s).
+Proof. exact ColdCacheTree.fresh_stream_good. Qed.
+Print Assumptions C02_positions_cold_caches.
